@@ -24,24 +24,46 @@ theorem C04_gate (env : Env) (s s' : State) (txs : List Tx) (fb : Header)
     (h : applyBatch env s txs fb = .ok s') (tx : Tx) (htx : tx ∈ txs) (i : Nat) (hi : i < tx.inputs.length) :
     ∃ rel coin, loadRelevantCoins s txs = .ok rel ∧ rel.get tx.inputs[i] = some coin ∧
       Approves env s fb tx i tx.inputs[i] coin := by
-  sorry
+  unfold applyBatch at h
+  cases hrel : loadRelevantCoins s txs with
+  | reject e => rw [hrel] at h; simp [Outcome.bind] at h
+  | crash c => rw [hrel] at h; simp [Outcome.bind] at h
+  | ok rel =>
+    rw [hrel] at h
+    simp only [Outcome.bind] at h
+    cases hst : loadStakeInfo s txs with
+    | reject e => rw [hst] at h; simp at h
+    | crash c => rw [hst] at h; simp at h
+    | ok newStakes =>
+      rw [hst] at h
+      simp only at h
+      cases hall : Outcome.forM' (fun tx => checkTxValidity env s (lastHeaderOf s fb) tx rel newStakes) txs with
+      | reject e => rw [hall] at h; simp at h
+      | crash c => rw [hall] at h; simp at h
+      | ok u =>
+        have hv := forM'_ok_mem _ txs hall tx htx
+        obtain ⟨coin, hget, hval⟩ := checkTxValidity_ok_input env s (lastHeaderOf s fb) tx rel newStakes hv i hi
+        exact ⟨rel, coin, rfl, hget, (validateTxScripts_ok_iff env i tx.inputs[i] tx coin (lastHeaderOf s fb)).mp hval⟩
 
 /-- one-input view of `validate_tx_scripts`: it succeeds exactly when the covenant approves -/
 theorem C04_validate_iff (env : Env) (s : State) (fb : Header) (tx : Tx) (i : Nat) (id : CoinID) (coin : CoinDataHeight) :
     validateTxScripts env i id tx coin (lastHeaderOf s fb) = .ok () ↔ Approves env s fb tx i id coin := by
-  sorry
+  exact validateTxScripts_ok_iff env i id tx coin (lastHeaderOf s fb)
 
 /-- a missing covenant is rejected -/
 theorem C04_missing (env : Env) (spendIdx : Nat) (id : CoinID) (tx : Tx) (coin : CoinDataHeight) (lh : Header)
     (h : tx.findCovenant coin.coinData.covhash = none) :
     validateTxScripts env spendIdx id tx coin lh = .reject .nonexistentScript := by
-  sorry
+  unfold validateTxScripts
+  rw [h]
 
 /-- an undecodable covenant is rejected -/
 theorem C04_undecodable (env : Env) (spendIdx : Nat) (id : CoinID) (tx : Tx) (coin : CoinDataHeight) (lh : Header)
     (bytes : Bytes) (h : tx.findCovenant coin.coinData.covhash = some bytes) (hd : decodeAll bytes = none) :
     validateTxScripts env spendIdx id tx coin lh = .reject .malformedTx := by
-  sorry
+  unfold validateTxScripts
+  rw [h]
+  simp only [hd]
 
 /-- a covenant that fails or evaluates to zero is rejected -/
 theorem C04_false (env : Env) (spendIdx : Nat) (id : CoinID) (tx : Tx) (coin : CoinDataHeight) (lh : Header)
@@ -49,7 +71,13 @@ theorem C04_false (env : Env) (spendIdx : Nat) (id : CoinID) (tx : Tx) (coin : C
     (hd : decodeAll bytes = some ops)
     (hv : ∀ v, execute env.vm ops tx (some { parentCoinID := id, parentCdh := coin, spenderIndex := spendIdx % 256, lastHeader := lh }) = some v → v.intoBool = false) :
     validateTxScripts env spendIdx id tx coin lh = .reject .violatesScript := by
-  sorry
+  unfold validateTxScripts
+  rw [h]
+  simp only [hd]
+  cases he : execute env.vm ops tx
+      (some { parentCoinID := id, parentCdh := coin, spenderIndex := spendIdx % 256, lastHeader := lh }) with
+  | none => rfl
+  | some v => simp [hv v he]
 
 /-- the environment: the eleven documented items sit at heap addresses 0–10 -/
 theorem C04_env (tx : Tx) (e : CovEnv) :
@@ -60,7 +88,9 @@ theorem C04_env (tx : Tx) (e : CovEnv) :
     h.get 6 = some (.bytes e.parentCdh.coinData.denom.toBytes) ∧
     h.get 7 = some (.bytes e.parentCdh.coinData.additionalData) ∧ h.get 8 = some (.ofNat e.parentCdh.height) ∧
     h.get 9 = some (.ofNat e.spenderIndex) ∧ h.get 10 = some (valOfHeader e.lastHeader) := by
-  sorry
+  simp [heapOfEnv, Heap.get, HADDR_SPENDER_TX, HADDR_SPENDER_INDEX, HADDR_SPENDER_TXHASH,
+    HADDR_PARENT_TXHASH, HADDR_PARENT_INDEX, HADDR_SELF_HASH, HADDR_PARENT_VALUE, HADDR_PARENT_DENOM,
+    HADDR_PARENT_ADDITIONAL_DATA, HADDR_PARENT_HEIGHT, HADDR_LAST_HEADER]
 
 /-- standard covenant (new style): approves iff the signature in the slot numbered by the input position is a
     valid Ed25519 signature of the signature-free transaction hash by the named key -/
@@ -68,13 +98,24 @@ theorem C04_std_new (o : Oracles) (pk : Bytes) (hpk : pk.length = 32) (tx : Tx) 
     (hh : tx.hash.length ≤ 32) (hidx : e.spenderIndex < 256) :
     (∃ v, execute o (stdEd25519New pk) tx (some e) = some v ∧ v.intoBool = true) ↔
     (∃ sig, tx.sigs[e.spenderIndex]? = some sig ∧ sig.length = 64 ∧ o.sigOk pk tx.hash sig = true) := by
-  sorry
+  rw [execute_stdNew o pk hpk tx e hh hidx]
+  exact stdResult_iff o pk tx e.spenderIndex
 
 /-- standard covenant (legacy): the same with signature slot 0 whatever the input position -/
 theorem C04_std_legacy (o : Oracles) (pk : Bytes) (hpk : pk.length = 32) (tx : Tx) (e : Option CovEnv)
     (hh : tx.hash.length ≤ 32) :
     (∃ v, execute o (stdEd25519Legacy pk) tx e = some v ∧ v.intoBool = true) ↔
     (∃ sig, tx.sigs[0]? = some sig ∧ sig.length = 64 ∧ o.sigOk pk tx.hash sig = true) := by
-  sorry
+  rw [execute_stdLegacy o pk hpk tx e hh]
+  exact stdResult_iff o pk tx 0
 
 end Mel
+
+#print axioms Mel.C04_gate
+#print axioms Mel.C04_validate_iff
+#print axioms Mel.C04_missing
+#print axioms Mel.C04_undecodable
+#print axioms Mel.C04_false
+#print axioms Mel.C04_env
+#print axioms Mel.C04_std_new
+#print axioms Mel.C04_std_legacy
